@@ -778,7 +778,8 @@ def gen_c09(rng):
         hist.append(dict(op='bconst', h=0, out=out, fn='invert', inplace=False))
     elif prod == 'wr':
         hist.append(dict(op='wr', h=0, out=out, compress=rng.random() < 0.5, pixels=None))
-    # phase 0: every argument is unchanged by the call itself
+    # what the result shares with its arguments (model table), then: every argument is unchanged by the call
+    hist.append(dict(op='sharing', out=out, srcs=list(srcs), prod=prod))
     for s in srcs:
         hist.append(chk(s, ['values', 'cov', 'valid', 'nvalid', 'raw']))
     hist.append(chk(out, ['values', 'cov', 'valid', 'nvalid', 'raw', 'layout']))
